@@ -307,13 +307,13 @@ pub fn generate(rng: &mut Rng, tier: Tier, emit: &mut dyn FnMut(String)) {
     }
     // two OS threads (spread evenly over the case list so that the runner's chunks share them)
     let mut heavy: Vec<String> = Vec::new();
-    let (cases, n) = if quick { (24, 50_000u64) } else { (60, 300_000u64) };
+    let (cases, n) = if quick { (24, 30_000u64) } else { (60, 300_000u64) };
     for i in 0..cases {
         heavy.push(format!("stress {} {} {}", if i % 6 == 0 { n / 100 } else { n }, i % 3, rng.below(1 << 32)));
     }
     // end-of-stream race (last merge immediately followed by the drop), repeated many times per case
     for i in 0..(if quick { 24 } else { 320 }) {
-        heavy.push(format!("race {} {} {}", if quick { 12_000 } else { 50_000 }, i % 4 + 1, rng.below(1 << 32)));
+        heavy.push(format!("race {} {} {}", if quick { 8_000 } else { 50_000 }, i % 4 + 1, rng.below(1 << 32)));
     }
     if !quick {
         heavy.push(format!("stress 1000000 0 {}", rng.below(1 << 32)));
